@@ -2,14 +2,17 @@
 # Confirm (once) and run the checks against every seeded change found in /tmp/wt-*/seeded and
 # already kept under /verif/seeded. Usage: seeded_all.sh [prop ...]
 export MUT_LAB=/tmp/mutlab
+# Usage: seeded_all.sh [round [prop ...]]   round 1 = /tmp/wt-Cxx (kept as <prop>-<n>), round 2 = /tmp/wt2-Cxx (<prop>-b<n>)
+round=${1:-1}; shift
 props="$@"
-[ -z "$props" ] && props=$(ls -d /tmp/wt-C* 2>/dev/null | sed 's#/tmp/wt-##')
+if [ "$round" = "2" ]; then pre=/tmp/wt2-; tag=b; else pre=/tmp/wt-; tag=; fi
+[ -z "$props" ] && props=$(ls -d ${pre}C* 2>/dev/null | sed "s#${pre}##")
 for prop in $props; do
-  wt=/tmp/wt-$prop
+  wt=${pre}$prop
   for p in $wt/seeded/patch*.diff; do
     [ -f "$p" ] || continue
     n=$(basename $p .diff); n=${n#patch}
-    d=/verif/seeded/$prop-$n
+    d=/verif/seeded/$prop-$tag$n
     if ! grep -q '"confirmed": true' $d/confirmation.json 2>/dev/null; then
       python3 /verif/tools/seeded.py confirm $wt $n > /tmp/confirm-$prop-$n.json 2>&1
       if grep -q '"confirmed": true' /tmp/confirm-$prop-$n.json; then
@@ -21,7 +24,7 @@ for prop in $props; do
       fi
     fi
     python3 /verif/tools/seeded.py try $d/patch.diff $prop all > $d/check-results.json 2>&1
-    python3 - "$d" "$prop-$n" <<'PY'
+    python3 - "$d" "$prop-$tag$n" <<'PY'
 import json,sys
 d,name=sys.argv[1],sys.argv[2]
 try:
